@@ -126,6 +126,7 @@ type Contract struct {
 	HasAssigns bool
 	Trusted  bool
 	Pure     bool
+	Owner    bool // runs on the goroutine that owns the queue (the only writer of owner-read guarded fields)
 	NoInline bool
 	Abstracts []string // free text: what is abstracted (goes to evidence)
 	Props    []string  // property ids this contract serves
@@ -174,6 +175,16 @@ type SpecFile struct {
 	Contracts []*Contract
 	Macros    []*Macro
 	Axioms    []*Axiom
+	Guards    []*Guard
+}
+
+// Guard: `guard Type.field by mutexField [owner-reads]`: field of Type is
+// protected by the mutex field of the same object. With owner-reads, the
+// goroutine that owns the queue may read it without the lock (it is the only
+// writer).
+type Guard struct {
+	Pkg, Type, Field, Mutex string
+	OwnerReads              bool
 }
 
 // ---------- lexer ----------
@@ -640,7 +651,7 @@ var clauseKeywords = map[string]bool{
 	"decreases": true, "trusted": true, "pure": true, "pred": true, "fn": true,
 	"lemma": true, "axiom": true, "call": true, "assert": true, "abstracts": true,
 	"props": true, "uses": true, "noinline": true, "ghost": true, "induct": true,
-	"package": true, "recfn": true, "opred": true, "ufn": true, "bounded": true, "use": true, "pattern": true, "irrelevant": true, "mutates": true, "ghostset": true, "closes": true,
+	"package": true, "recfn": true, "opred": true, "ufn": true, "bounded": true, "use": true, "pattern": true, "irrelevant": true, "mutates": true, "ghostset": true, "closes": true, "guard": true, "owner": true,
 }
 
 func firstWord(s string) string {
@@ -721,6 +732,17 @@ func parseSpecFile(path, pkgPath string) (*SpecFile, error) {
 			}
 			m.Pkg = pkgPath
 			sf.Macros = append(sf.Macros, m)
+		case "guard":
+			f := strings.Fields(rest)
+			if len(f) < 3 || f[1] != "by" || !strings.Contains(f[0], ".") {
+				return nil, fail(i, "guard: want `guard Type.field by mutexField [owner-reads]`")
+			}
+			tf := strings.SplitN(f[0], ".", 2)
+			g := &Guard{Pkg: pkgPath, Type: tf[0], Field: tf[1], Mutex: f[2]}
+			if len(f) > 3 && f[3] == "owner-reads" {
+				g.OwnerReads = true
+			}
+			sf.Guards = append(sf.Guards, g)
 		case "axiom":
 			lab, ex := splitLabel(rest)
 			e, err := parseSpecExpr(ex)
@@ -816,6 +838,14 @@ func parseSpecFile(path, pkgPath string) (*SpecFile, error) {
 				}
 			case "pure":
 				cur.Pure = true
+			case "owner":
+				// runs on the goroutine that owns the queue: ghost.owner == 1 on entry
+				cur.Owner = true
+				e, err := parseSpecExpr("ghost.owner == 1")
+				if err != nil {
+					return nil, fail(i, "%v", err)
+				}
+				cur.Requires = append(cur.Requires, Clause{Kind: "requires", Label: "owner", Expr: e, Text: "ghost.owner == 1 (runs on the queue-owner goroutine)"})
 			case "noinline":
 				cur.NoInline = true
 			case "bounded":
